@@ -966,6 +966,8 @@ class QReal(float):
     __slots__ = ("q",)
 
     def __new__(cls, q):
+        if isinstance(q, float) and (q != q or q in (math.inf, -math.inf)):
+            return float(q)          # no exact value: plain float semantics
         o = float.__new__(cls, float(q))
         o.q = Fraction(q)
         return o
@@ -975,7 +977,7 @@ class QReal(float):
             if not isinstance(o, (int, float, Fraction)):
                 return NotImplemented
             if isinstance(o, float) and not isinstance(o, QReal) and (o != o or o in (math.inf, -math.inf)):
-                return getattr(float, f.__name__)(float(self.q), o)
+                return f(float(self.q), o)       # comparisons / arithmetic with inf or nan: plain float semantics
             return f(self.q, _q(o))
         return g
 
